@@ -390,7 +390,12 @@ def subscript_value(interp, o, idx, st):
         return read_local(o, idx, st)
     if isinstance(o, ArrParam):
         if len(idx) == o.ndim and all(to_x(i) is not None for i in idx):
-            return mk_idx(o.name, [to_x(i) for i in idx], o.kind)
+            xs = []
+            for k_, i in enumerate(idx):
+                xi = to_x(i); c_ = xi.constval()
+                if c_ is not None and c_.im == 0 and c_.re < 0: xi = xi + o.shape(k_)      # negative index counts from the end
+                xs.append(xi)
+            return mk_idx(o.name, xs, o.kind)
         return arr_getitem(o.as_arr(), idx)
     if isinstance(o, Arr):
         return arr_getitem(o, idx)
